@@ -59,6 +59,7 @@ def core_scenario(w, extra_ops=()):
     if op == 'get': L.append(f"op get k{w['argkey']}")
     elif op in ('insert', 'insert_with_memory'): L.append(f"op {op} k{w['argkey']} {w['argval']} {w['argsize']}")
     elif op == 'clear': L.append('op clear')
+    elif op in ('none', 'conc'): pass
     for o in extra_ops: L.append('op ' + o)
     L.append('end')
     return '\n'.join(L) + '\n'
